@@ -6,10 +6,11 @@ From AL Require Import C06.ProofsWorld C06.ProofsWorld2.
 Import ListNotations.
 
 (* permutations of concatenations: rotate the right-hand side until the heads agree *)
-Ltac perm_rot := etransitivity; [|apply Permutation_app_comm]; rewrite <- ?app_assoc.
+Ltac perm_rot := match goal with |- Permutation _ (?b ++ ?r) => transitivity (r ++ b); [|apply (Permutation_app_comm r b)] end; rewrite <- ?app_assoc.
+Ltac perm_head := match goal with |- Permutation (?a ++ _) (?b ++ _) => unify a b; apply (Permutation_app_head a) end.
 Ltac perm_solve :=
   rewrite <- ?app_assoc; rewrite ?app_nil_r;
-  solve [ do 60 (first [ reflexivity | apply Permutation_app_head | perm_rot ]) ].
+  solve [ do 60 (first [ reflexivity | perm_head | perm_rot ]) ].
 
 (* a filter in a world: X = the leaves of the other live Stream objects *)
 Definition FW (HT : htab) (hn : nat) (f : tfilt) (X : list leaf) : Prop :=
